@@ -39,6 +39,6 @@ if [ "$phase" = "A" ]; then
 else
   cd /repo && git status --short | grep -q . && { echo "/repo not clean"; exit 3; }
   git apply "$src/patch.diff" || { echo "PATCH-DOES-NOT-APPLY to /repo"; exit 3; }
-  ( cd /verif && ./check $tag > /tmp/vs/check-$tag.log 2>&1; echo "CHECK $tag exit=$?"; grep -E "^(VIOLATION|  signature|KNOWN|C[0-9]+ tier|INCONCL|HARNESS|BUILD)" /tmp/vs/check-$tag.log | cut -c1-300 | head -12 )
+  ( cd ${VQ:-/verif} && ./check $tag > /tmp/vs/check-$tag.log 2>&1; echo "CHECK $tag exit=$?"; grep -E "^(VIOLATION|  signature|KNOWN|C[0-9]+ tier|INCONCL|HARNESS|BUILD)" /tmp/vs/check-$tag.log | cut -c1-300 | head -12 )
   git -C /repo checkout -- . ; git -C /repo status --short | head -3
 fi
